@@ -134,9 +134,19 @@ impl<const N: usize> Serialize for Df88591String<N> {
     where
         S: sd::Serializer,
     {
-        let value: ArrayString<N> = self.chars().collect();
-
-        serializer.serialize_str(&value)
+        // Stream the characters to the serializer: collecting them into an
+        // `ArrayString<N>` first would cut the text short, because characters in the
+        // upper half of ISO 8859-1 take two bytes in UTF-8 and N counts bytes there.
+        struct Chars<'a, const N: usize>(&'a Df88591String<N>);
+        impl<const N: usize> core::fmt::Display for Chars<'_, N> {
+            fn fmt(&self, f: &mut core::fmt::Formatter<'_>) -> core::fmt::Result {
+                for c in self.0.chars() {
+                    f.write_char(c)?;
+                }
+                Ok(())
+            }
+        }
+        serializer.collect_str(&Chars(self))
     }
 }
 #[cfg(feature = "serde")]
